@@ -13,6 +13,7 @@ mod c10;
 mod c11;
 mod c15;
 mod c16;
+mod c19;
 mod claims;
 mod common;
 mod dbg;
@@ -47,6 +48,7 @@ fn gen(prop: &str, tier: &str, seed: u64, out: &str) {
         "C07" => c07::gen_c07(&mut em, &mut rng),
         "C15" => c15::gen_c15(&mut em, &mut rng),
         "C16" => c16::gen_c16(&mut em, &mut rng),
+        "C19" => c19::gen_c19(&mut em, &mut rng),
         "C12" => c07::gen_c12(&mut em, &mut rng),
         "C09" => c05::gen_c09(&mut em, &mut rng),
         "C04" => c11::gen_c04(&mut em, &mut rng),
